@@ -45,11 +45,16 @@ Definition guarded_of (pass : string) : bool :=
   match filter (fun r => String.eqb (l_pass r) pass) lock_rows with r :: _ => l_writes_guarded r | [] => false end.
 
 (* on the current source AssignIDs writes unconditionally: the race witness applies (KF-14) *)
-Theorem assign_ids_unguarded : guarded_of "AssignIDs" = false.
-Proof. vm_compute. reflexivity. Qed.
-Theorem local_ids_race_now :
-  exists s0 s, initial [0%Z] s0 /\ reachable (guarded_of "AssignIDs") [0%Z] s0 s /\ race (guarded_of "AssignIDs") [0%Z] s.
-Proof. rewrite assign_ids_unguarded. exact unguarded_race. Qed.
+(* after fix 'assign an ID only when it changes': the local and the global ID pass write an ID only
+   when it differs from the stored one, so the positive theorem applies to the source as it is *)
+Theorem assign_ids_guarded : guarded_of "AssignIDs" = true /\ guarded_of "AssignGlobalIDs" = true.
+Proof. vm_compute. split; reflexivity. Qed.
+Theorem local_ids_race_free_now : forall expected s0 s,
+  initial expected s0 -> reachable (guarded_of "AssignIDs") expected s0 s -> ~ race (guarded_of "AssignIDs") expected s.
+Proof. destruct assign_ids_guarded as [-> _]. exact guarded_race_free. Qed.
+Theorem global_ids_race_free_now : forall expected s0 s,
+  initial expected s0 -> reachable (guarded_of "AssignGlobalIDs") expected s0 s -> ~ race (guarded_of "AssignGlobalIDs") expected s.
+Proof. destruct assign_ids_guarded as [_ ->]. exact guarded_race_free. Qed.
 (* the metadata pass only writes IDs that are unset: race-free by guarded_race_free *)
 Theorem metadata_ids_guarded : guarded_of "AssignMetadataIDs" = true.
 Proof. vm_compute. reflexivity. Qed.
